@@ -50,7 +50,7 @@ def gen_history(r, k):
     atoms = [list(a) for a in base["atoms"]]
     cases0 = [dict(c) for c in cs]          # the configuration as first written
     for e in range(r.randint(3, 5)):
-        kind = r.choice(["modify", "modify", "flags", "move", "nopbc", "badmodify"])
+        kind = r.choice(["modify", "modify", "flags", "move", "nopbc", "badmodify", "period"])
         line = None; ev = None
         if kind == "flags" and ncomp >= 2:
             fl = [r.randint(0, 1) for _ in cs]
@@ -60,6 +60,13 @@ def gen_history(r, k):
         elif kind == "nopbc" and base["cell"] is not None:
             j = r.randrange(ncomp); cs[j] = dict(cs[j]); cs[j]["pbc"] = 1 - cs[j].get("pbc", 1)
             confs = ["" for _ in cs]; confs[j] = "forceNoPBC " + ("off" if cs[j]["pbc"] else "on")
+            line = "M | " + " ~ ".join(confs)
+        elif kind == "period" and any(c["comp"] == "distanceZ" for c in cs):
+            j = r.choice([j for j, c in enumerate(cs) if c["comp"] == "distanceZ"])
+            cs[j] = dict(cs[j]); cs[j]["params"] = dict(cs[j]["params"])
+            cs[j]["params"]["period"] = r.choice([2.0, 4.0, 8.0]); cs[j]["params"]["wrap"] = r.choice([0.0, 1.0, -0.5])
+            confs = ["" for _ in cs]
+            confs[j] = "period %s;wrapAround %s" % (G.g17(cs[j]["params"]["period"]), G.g17(cs[j]["params"]["wrap"]))
             line = "M | " + " ~ ".join(confs)
         elif kind == "move":
             for _ in range(30):
